@@ -9,7 +9,7 @@ Import ListNotations.
 (* at every point of every interleaving of submit / shutdown / deaths / idle exits / completions with the manager walking its lists
    one operation at a time: a future has been failed with the BrokenProcessPool error only if the broken flag is already set *)
 Theorem C02_loud_before_any_broken_future :
-  forall n es, no_resize es = true -> failB (run es (pool0 n)) > 0 -> broken (run es (pool0 n)) = true.
+  forall n es, failB (run es (pool0 n)) > 0 -> broken (run es (pool0 n)) = true.
 Proof. exact loud_before_any_broken_future. Qed.
 Print Assumptions C02_loud_before_any_broken_future.
 
@@ -33,20 +33,21 @@ Print Assumptions C02_death_fails_everything_loudly.
 
 (* when the manager is gone nothing is unresolved, no worker is registered, and nothing can be accepted any more *)
 Theorem C02_manager_gone_means_all_settled :
-  forall n es, no_resize es = true -> mgr (run es (pool0 n)) = MDone ->
+  forall n es, mgr (run es (pool0 n)) = MDone ->
     pending (run es (pool0 n)) = 0 /\ procs (run es (pool0 n)) = [] /\ closed (run es (pool0 n)) = true.
 Proof. exact manager_gone_means_all_settled. Qed.
 Print Assumptions C02_manager_gone_means_all_settled.
 
-(* the hypothesis no_resize cannot be dropped: a _resize() top-up racing with terminate_broken leaves workers that are never killed
-   nor reaped (finding H8; model witness, the real schedule is in known_findings.json) *)
-Theorem C02_refuted_with_resize :
-  exists es, let p := run es (pool0 2) in mgr p = MDone /\ procs p <> [] /\ broken p = true.
+(* _resize() top-ups included: they happen only while the pool is neither broken nor shut down (generated fact
+   resize_tops_up_only_on_a_live_pool; false on the pinned source, finding H8, fixed).  Without the guard a top-up that arrives after
+   the manager has gone leaves workers that are never killed nor reaped: *)
+Theorem C02_unguarded_resize_refuted :
+  exists es, let p := run es (pool0 2) in mgr p = MDone /\ procs p = [] /\ broken p = true /\ procs (top_up p) <> [] /\ step p ResizeTopUp = p.
 Proof.
-  exists (submit_all ++ [Crash 0; Detect; MgrOp; MgrOp; MgrOp; MgrOp; MgrOp; MgrOp; MgrOp; MgrOp; MgrOp; MgrOp; MgrOp; ResizeTopUp]).
+  exists (submit_all ++ [Crash 0; Detect; MgrOp; MgrOp; MgrOp; MgrOp; MgrOp; MgrOp; MgrOp; MgrOp; MgrOp; MgrOp; MgrOp]).
   vm_compute. repeat split; discriminate.
 Qed.
-Print Assumptions C02_refuted_with_resize.
+Print Assumptions C02_unguarded_resize_refuted.
 
 Theorem C02_structure :
   kill_workers_pops_and_kills_each = true /\ broken_by_sentinel_polls_exit_codes = true /\ flags_start_clear = true
